@@ -270,7 +270,28 @@ def run_layout(case, tape):
             probes['arrival_order_P%d_%s' % (P, ''.join(map(str, w.sched['priority_perm'])))] = 1
         return dict(nontrivial=(P > 1 and ncoll > 0), probes=probes, faults_extra=1)
 
-    return execute(ID, P, case['sched'], tape, rank_fn, post)
+    res = execute(ID, P, case['sched'], tape, rank_fn, post)
+    if res['status'] == 'violation' and case.get('salted') and \
+            str(res['kind']) in ('exception:KeyError', 'exception:AssertionError'):
+        # a name lookup failed: the code may legitimately normalise layout names to plain str,
+        # which a str subclass with its own hash cannot survive.  Only when the same case passes
+        # with plain names is this a limitation of the salting trick, not a violation.
+        plain = execute(ID, P, case['sched'], tape, (lambda comm, rank: _plain_rank_fn(case, comm, rank)), None)
+        if plain['status'] == 'ok':
+            res.update(status='skip', kind='skip', message='salted layout names not supported by this code path',
+                       nontrivial=False)
+            res['probes'] = dict(res.get('probes') or {}, salted_names_unsupported=1)
+    return res
+
+
+def _plain_rank_fn(case, comm, rank):
+    w = simworld.current()[0]
+    if case['mgr'] == 'handler':
+        mgr = c01.build_handler(comm, case)
+        c01.do_transposes(mgr, case, w, rank)
+    else:
+        c03.build_swapper(comm, case)
+    return True
 
 
 # ---------------------------------------------------------------------------
